@@ -3302,8 +3302,13 @@ Box<ITV>
     PPL_DIRTY_TEMP_COEFFICIENT(min_denom);
     bool min_included;
     ITV& seq_v = seq[var.id()];
-    if (maximize(ub_expr, max_numer, max_denom, max_included)) {
-      if (minimize(lb_expr, min_numer, min_denom, min_included)) {
+    // With a negative denominator the roles of the two expressions are
+    // exchanged: the maximum of `lb_expr' yields the lower bound for `var'
+    // and the minimum of `ub_expr' yields the upper bound.
+    const Linear_Expression& max_expr = (denominator > 0) ? ub_expr : lb_expr;
+    const Linear_Expression& min_expr = (denominator > 0) ? lb_expr : ub_expr;
+    if (maximize(max_expr, max_numer, max_denom, max_included)) {
+      if (minimize(min_expr, min_numer, min_denom, min_included)) {
         // The `ub_expr' has a maximum value and the `lb_expr'
         // has a minimum value for the box.
         // Set the bounds for `var' using the minimum for `lb_expr'.
@@ -3346,7 +3351,7 @@ Box<ITV>
         seq_v.build(i_constraint(rel, q));
       }
     }
-    else if (minimize(lb_expr, min_numer, min_denom, min_included)) {
+    else if (minimize(min_expr, min_numer, min_denom, min_included)) {
         // The `ub_expr' has no maximum value but the `lb_expr'
         // has a minimum value for the box.
         // Set the bounds for `var' using the minimum for `lb_expr'.
